@@ -31,11 +31,21 @@ def withEncryption (usable : Str → Bool) (key : Str) : OpenResult :=
   if key.isEmpty then .fails else if usable key then .encrypted key else .fails
 
 /-- fromURL: `encrypt` ∈ {on, aesgcm} switches encryption on; the key is `encrypt_key`, else the
-    FSCACHE_ENCRYPT_KEY environment variable (cmp.Or) -/
+    FSCACHE_ENCRYPT_KEY environment variable (cmp.Or); an absent (empty) parameter or "off" asks for none;
+    any other spelling fails at open (repair b55c81c — the pinned tree stored plaintext for "ON", "true", …) -/
 def fromURL (usable : Str → Bool) (encryptParam dsnKey envKey : Str) : OpenResult :=
   if encryptParam = (str% "on") || encryptParam = (str% "aesgcm") then
     withEncryption usable (if dsnKey.isEmpty then envKey else dsnKey)
-  else .plaintext
+  else if encryptParam = [] || encryptParam = (str% "off") then .plaintext
+  else .fails
+
+/-- the executable form the correspondence check runs (`S CFGM` lines): keys are classes, "good" is usable -/
+def fromURLClass (encryptParam dsnKey envKey : String) : String :=
+  match fromURL (fun k => k = (str% "good")) encryptParam.toList dsnKey.toList envKey.toList with
+  | .fails => "fail" | .plaintext => "plain" | .encrypted _ => "enc"
+def withEncryptionClass (key : String) : String :=
+  match withEncryption (fun k => k = (str% "good")) key.toList with
+  | .fails => "fail" | .plaintext => "plain" | .encrypted _ => "enc"
 
 theorem withEncryption_cases (usable : Str → Bool) (key : Str) :
     withEncryption usable key = .fails ∨ (withEncryption usable key = .encrypted key ∧ usable key = true ∧ key ≠ []) := by
@@ -47,6 +57,25 @@ theorem withEncryption_cases (usable : Str → Bool) (key : Str) :
       refine ⟨by simp [h1, h2], h2, ?_⟩
       intro h'; apply h1; simp [h']
     · left; simp [h1, h2]
+
+theorem withEncryption_ne_plain (usable : Str → Bool) (key : Str) : withEncryption usable key ≠ .plaintext := by
+  unfold withEncryption; split
+  · simp
+  · split <;> simp
+
+/-- a DSN opens a plaintext store only when its `encrypt` parameter is absent (empty) or "off": every other
+    spelling encrypts with a usable key or fails at open -/
+theorem plaintext_only_when_not_asked (usable : Str → Bool) (p dsnKey envKey : Str)
+    (h : fromURL usable p dsnKey envKey = .plaintext) : p = [] ∨ p = (str% "off") := by
+  unfold fromURL at h
+  split at h
+  · exact absurd h (withEncryption_ne_plain _ _)
+  · split at h
+    · rename_i h2; simpa using h2
+    · cases h
+
+example : fromURL (fun _ => true) (str% "ON") (str% "k") [] = .fails ∧ fromURL (fun _ => true) (str% "off") (str% "k") [] = .plaintext ∧
+    fromURL (fun _ => true) (str% "on") [] (str% "e") = .encrypted (str% "e") := by decide
 
 /-- requesting encryption never yields a plaintext store: it encrypts with a usable key or fails -/
 theorem encryption_requested_never_plaintext (usable : Str → Bool) (p dsnKey envKey : Str)
